@@ -3,7 +3,6 @@ package wal
 import (
 	"errors"
 	"fmt"
-	"github.com/thomasjungblut/go-sstables/recordio"
 	"io"
 	"os"
 	"path/filepath"
@@ -36,56 +35,60 @@ func (r *Replayer) Replay(process func(record []byte) error) (err error) {
 	// do not rely on the order of the FS, we do an additional sort to make sure we start reading from 0000 to 9999
 	sort.Strings(walFiles)
 
-	var toClose []recordio.ReaderI
-	defer func() {
-		for _, reader := range toClose {
-			err = errors.Join(err, reader.Close())
-		}
-	}()
-
 	for i, path := range walFiles {
 		// only the newest file can be cut short by a crash: rotation closes a file completely before the next one is created
 		isLastFile := i == len(walFiles)-1
 
-		reader, err := r.walOptions.readerFactory(path)
+		err = r.replayFile(path, isLastFile, process)
 		if err != nil {
-			return fmt.Errorf("error while creating WAL reader under '%s': %w", path, err)
-		}
-		toClose = append(toClose, reader)
-
-		err = reader.Open()
-		if err != nil {
-			// a crash between creating the newest file and writing its header leaves it without records
-			if isLastFile && isTornTail(err) {
-				break
-			}
-			return fmt.Errorf("error while opening WAL reader under '%s': %w", path, err)
-		}
-
-		for {
-			bytes, err := reader.ReadNext()
-			// io.EOF signals that no records are left to be read
-			if errors.Is(err, io.EOF) {
-				break
-			}
-
-			// a crash can cut the last record of the newest file short, which marks the end of the log
-			if isLastFile && errors.Is(err, io.ErrUnexpectedEOF) {
-				break
-			}
-
-			if err != nil {
-				return fmt.Errorf("error while reading WAL records under '%s': %w", path, err)
-			}
-
-			err = process(bytes)
-			if err != nil {
-				return fmt.Errorf("error while processing WAL record under '%s': %w", path, err)
-			}
+			return err
 		}
 	}
 
 	return nil
+}
+
+// replayFile delivers the records of one file and closes it again, so that a log of any number of files is replayed
+// with one open file at a time.
+func (r *Replayer) replayFile(path string, isLastFile bool, process func(record []byte) error) (err error) {
+	reader, err := r.walOptions.readerFactory(path)
+	if err != nil {
+		return fmt.Errorf("error while creating WAL reader under '%s': %w", path, err)
+	}
+	defer func() {
+		err = errors.Join(err, reader.Close())
+	}()
+
+	err = reader.Open()
+	if err != nil {
+		// a crash between creating the newest file and writing its header leaves it without records
+		if isLastFile && isTornTail(err) {
+			return nil
+		}
+		return fmt.Errorf("error while opening WAL reader under '%s': %w", path, err)
+	}
+
+	for {
+		bytes, err := reader.ReadNext()
+		// io.EOF signals that no records are left to be read
+		if errors.Is(err, io.EOF) {
+			return nil
+		}
+
+		// a crash can cut the last record of the newest file short, which marks the end of the log
+		if isLastFile && errors.Is(err, io.ErrUnexpectedEOF) {
+			return nil
+		}
+
+		if err != nil {
+			return fmt.Errorf("error while reading WAL records under '%s': %w", path, err)
+		}
+
+		err = process(bytes)
+		if err != nil {
+			return fmt.Errorf("error while processing WAL record under '%s': %w", path, err)
+		}
+	}
 }
 
 // isTornTail tells whether reading stopped because the file ended too early
